@@ -333,6 +333,10 @@ struct World {
     ev_rx: Receiver<Ev>,
     ev_tx: Sender<Ev>,
     ack_tx: Sender<()>,
+    /// slotmap key (as dumped by `Executor::verif_queue_dump`) -> task number, recorded at spawn
+    keys: HashMap<u64, usize>,
+    /// `C04:queue-corrupt` already reported for this case
+    queue_reported: bool,
 }
 
 impl World {
@@ -361,6 +365,75 @@ impl World {
             ev_rx,
             ev_tx,
             ack_tx,
+            keys: HashMap::new(),
+            queue_reported: false,
+        }
+    }
+
+    fn key_name(&self, k: u64) -> String {
+        match self.keys.get(&k) {
+            Some(id) => id.to_string(),
+            None => format!("?{k}"),
+        }
+    }
+
+    /// the `qdump` line: both intrusive lists as walked from their heads, and the stored tails
+    fn qdump(&self) -> String {
+        let Some(exe) = &self.exe else { return "q dead".into() };
+        let ([hot, cold], [ht, ct]) = exe.verif_queue_dump();
+        let list = |l: &[u64]| {
+            if l.is_empty() { "-".to_string() } else { l.iter().map(|k| self.key_name(*k)).collect::<Vec<_>>().join(",") }
+        };
+        let tail = |t: Option<u64>| t.map(|k| self.key_name(k)).unwrap_or_else(|| "-".into());
+        format!("q hot={} cold={} ht={} ct={}", list(&hot), list(&cold), tail(ht), tail(ct))
+    }
+
+    /// Monitor (uses only the dump hook and the harness' own bookkeeping): between operations the two lists of the
+    /// task queue are well formed: no key twice, no cycle, only keys of tasks the queue still owns, stored tail = last element
+    /// walked, and every task that has not completed and whose future is still alive is on exactly one of the two lists.
+    fn check_queue(&mut self, after: &str, ex: &mut Exec) {
+        let Some(exe) = &self.exe else { return };
+        if self.queue_reported {
+            return;
+        }
+        let ([hot, cold], [ht, ct]) = exe.verif_queue_dump();
+        let mut bad: Vec<String> = vec![];
+        let c = lk(&self.sh);
+        // still owned by the queue: not completed (a completed task is removed at once) and not yet reaped
+        let live: Vec<usize> = (0..c.polls.len()).filter(|id| c.fut_drops[*id] == 0 && !c.completed[*id]).collect();
+        drop(c);
+        let mut seen: Vec<u64> = vec![];
+        for (name, walk, tail) in [("hot", &hot, ht), ("cold", &cold, ct)] {
+            if walk.len() > live.len() + 1 {
+                bad.push(format!("{name} walk has {} elements for {} live tasks (cycle)", walk.len(), live.len()));
+            }
+            for k in walk {
+                if seen.contains(k) {
+                    bad.push(format!("task {} occurs twice in the lists", self.key_name(*k)));
+                }
+                seen.push(*k);
+                match self.keys.get(k) {
+                    None => bad.push(format!("{name} walk reaches the unknown (dead) key {k}")),
+                    Some(id) if !live.contains(id) => bad.push(format!("{name} walk reaches task {id}, which has completed / been reaped (dead key)")),
+                    Some(_) => {}
+                }
+            }
+            if walk.last().copied() != tail {
+                bad.push(format!(
+                    "{name} walk ends at {} but the stored {name} tail is {}",
+                    walk.last().map(|k| self.key_name(*k)).unwrap_or_else(|| "-".into()),
+                    tail.map(|k| self.key_name(k)).unwrap_or_else(|| "-".into())
+                ));
+            }
+        }
+        for id in live {
+            if !seen.iter().any(|k| self.keys.get(k) == Some(&id)) {
+                bad.push(format!("task {id} (not completed, future alive) is on neither list"));
+            }
+        }
+        if !bad.is_empty() {
+            self.queue_reported = true;
+            ex.fail("C04:queue-corrupt", format!("after `{after}`: {}; {}", bad.join("; "), self.qdump()));
         }
     }
 
@@ -545,6 +618,19 @@ fn exec_line(w: &mut World, line: &str, ex: &mut Exec) -> String {
                 c.live_drop_reported.push(false);
             }
             let h = exe.spawn(Scripted { id, script, sh: w.sh.clone() });
+            // the new task is linked at the hot tail: its key is the last element of the hot walk
+            let ([hot, _], _) = exe.verif_queue_dump();
+            match hot.last() {
+                Some(k) if !w.keys.contains_key(k) => {
+                    w.keys.insert(*k, id);
+                }
+                other => {
+                    if !w.queue_reported {
+                        w.queue_reported = true;
+                        ex.fail("C04:queue-corrupt", format!("after `{line}`: the new task {id} is not the last element of the hot walk (last = {other:?})"));
+                    }
+                }
+            }
             w.handles.push(Some(h));
             w.parked.push(None);
             format!("id {id}")
@@ -868,6 +954,7 @@ fn exec_line(w: &mut World, line: &str, ex: &mut Exec) -> String {
                 c.polls[id], c.fut_drops[id], c.res_taken[id] + c.res_drops[id]
             )
         }
+        "qdump" => w.qdump(),
         "woken" => {
             let l = w.wake_log.lock().unwrap();
             if !l.is_empty() {
@@ -906,6 +993,7 @@ fn run_case(case: &Case) -> Exec {
             }
         };
         w.check_live_drops(line, &mut ex);
+        w.check_queue(line, &mut ex);
         spawned |= o.starts_with("id ");
         ex.tag(format!("op:{}:{}", t[0], o.split(' ').next().unwrap()));
         ex.out.push(o);
@@ -935,6 +1023,7 @@ fn run_case(case: &Case) -> Exec {
                 rounds += 1;
             }
             w.check_live_drops("draining ticks", &mut ex);
+            w.check_queue("draining ticks", &mut ex);
             if hot {
                 ex.fail("C04:hot-never-drains", format!("tick still reports hot tasks after {rounds} further ticks"));
             }
@@ -1230,8 +1319,43 @@ impl Prog {
             self.lines.push(format!("stat {id}"));
         }
         self.lines.push("woken".into());
-        Case { name, lines: self.lines }
+        Case { name, lines: with_qdumps(self.lines, Dumps::All) }
     }
+}
+
+/// where `qdump` lines go
+#[derive(Clone, Copy, PartialEq)]
+enum Dumps {
+    /// after every operation line (except new / stat / woken / qdump)
+    All,
+    /// only after tick / wake / handle drop and cancel lines (local or remote), for the big exhaustive sets
+    Sparse,
+}
+
+/// insert `qdump` lines; the case always has one right before the trailing stat / woken lines
+fn with_qdumps(lines: Vec<String>, mode: Dumps) -> Vec<String> {
+    // the trailing block of stat / woken lines
+    let mut end = lines.len();
+    while end > 0 && (lines[end - 1].starts_with("stat ") || lines[end - 1] == "woken") {
+        end -= 1;
+    }
+    let mut out = Vec::with_capacity(lines.len() * 2);
+    for (i, l) in lines.into_iter().enumerate() {
+        if i == end && out.last().map(|x: &String| x != "qdump").unwrap_or(false) && i > 1 {
+            out.push("qdump".to_string());
+        }
+        let op = l.split(' ').next().unwrap().to_string();
+        out.push(l);
+        let dump = match op.as_str() {
+            "new" | "stat" | "woken" | "qdump" => false,
+            "tick" | "wake" | "rwake" | "rwakeb" | "hdrop" | "rhdrop" | "hcancel" | "rhcancel" => true,
+            _ => mode == Dumps::All,
+        };
+        if dump && i < end {
+            out.push("qdump".to_string());
+        }
+    }
+    out
 }
 
 /// weights of one guided random step
@@ -2130,7 +2254,7 @@ fn fam_random(rng: &mut Rng, name: String) -> Case {
         lines.push(format!("stat {id}"));
     }
     lines.push("woken".into());
-    Case { name, lines }
+    Case { name, lines: with_qdumps(lines, Dumps::All) }
 }
 
 // ---- exhaustive enumeration -------------------------------------------------------------------
@@ -2161,7 +2285,8 @@ struct EnumSt {
 /// spawn/tick/xdrop after xdrop; wake/wdrop of task 0 when its script has no `c`, or before the first tick after its
 /// spawn, or after as many `wdrop 0` as its script has `c`. `hpoll 0 1` is only used after some other hpoll
 /// (before, waker 1 is waker 0 renamed).
-fn enumerate(maxlen: usize, n: u32, scripts: &[&str], prefix: &str, out: &mut Vec<Case>) {
+fn enumerate(maxlen: usize, n: u32, scripts: &[&str], prefix: &str, dumps: Dumps, out: &mut Vec<Case>) {
+    let first = out.len();
     fn rec(left: usize, st: EnumSt, ops: &mut Vec<String>, n: u32, scripts: &[&str], prefix: &str, out: &mut Vec<Case>) {
         if st.nsp > 0 {
             let mut lines = Vec::with_capacity(ops.len() + 4);
@@ -2222,6 +2347,9 @@ fn enumerate(maxlen: usize, n: u32, scripts: &[&str], prefix: &str, out: &mut Ve
     }
     let st = EnumSt { nsp: 0, c0: 0, alive: true, h: [false, false], tick0: false, wd0: 0, wused: false };
     rec(maxlen, st, &mut vec![], n, scripts, prefix, out);
+    for c in &mut out[first..] {
+        c.lines = with_qdumps(std::mem::take(&mut c.lines), dumps);
+    }
 }
 
 /// Syntactic state of the cross-thread enumeration.
@@ -2242,7 +2370,8 @@ struct EnumR {
 /// All programs of 1..=maxlen operations over the alphabet {spawn s (s in `scripts`), tick, rwake 0, rwake 1, rwakeb 0,
 /// rwakeb 1, wake 0, rwdrop 0, rhpoll 0 0, hpoll 0 1, rhdrop 0, rhcancel 0, hdrop 1, xdrop}, pruned like `enumerate`
 /// (first a spawn, at most 2 spawns, nothing that is certainly `invalid` by syntax alone; `full` is not pruned).
-fn enumerate_r(maxlen: usize, new: &str, scripts: &[&str], prefix: &str, out: &mut Vec<Case>) {
+fn enumerate_r(maxlen: usize, new: &str, scripts: &[&str], prefix: &str, dumps: Dumps, out: &mut Vec<Case>) {
+    let first = out.len();
     fn rec(left: usize, st: EnumR, ops: &mut Vec<String>, new: &str, scripts: &[&str], prefix: &str, out: &mut Vec<Case>) {
         if st.nsp > 0 {
             let mut lines = Vec::with_capacity(ops.len() + 4);
@@ -2304,6 +2433,9 @@ fn enumerate_r(maxlen: usize, new: &str, scripts: &[&str], prefix: &str, out: &m
     }
     let st = EnumR { nsp: 0, c: [0, 0], alive: true, h: [false, false], tick: [false, false], wd: [0, 0] };
     rec(maxlen, st, &mut vec![], new, scripts, prefix, out);
+    for c in &mut out[first..] {
+        c.lines = with_qdumps(std::mem::take(&mut c.lines), dumps);
+    }
 }
 
 const SCRIPTS_R: [&str; 4] = ["cWr", "cpr", "p", "Wr"];
@@ -2316,25 +2448,25 @@ fn generate(tier: &str, rng: &mut Rng) -> Vec<Case> {
     let mut cases = vec![];
     // 1. exhaustive slices
     if thorough {
-        enumerate(7, 61, &SCRIPTS_A, "xa", &mut cases);
-        enumerate(6, 1, &SCRIPTS_A, "xb", &mut cases);
-        enumerate(6, 2, &SCRIPTS_A, "xc", &mut cases);
-        enumerate(6, 61, &SCRIPTS_B, "xd", &mut cases);
-        enumerate(5, 1, &SCRIPTS_B, "xe", &mut cases);
-        enumerate(5, 2, &SCRIPTS_B, "xf", &mut cases);
-        enumerate(5, 3, &SCRIPTS_B, "xg", &mut cases);
-        enumerate(6, 61, &SCRIPTS_C, "xh", &mut cases);
-        enumerate(5, 1, &SCRIPTS_C, "xi", &mut cases);
-        enumerate(5, 2, &SCRIPTS_C, "xj", &mut cases);
-        enumerate_r(6, "new 61", &SCRIPTS_R, "xr", &mut cases);
-        enumerate_r(5, "new 61 1", &SCRIPTS_R, "xs", &mut cases);
-        enumerate_r(5, "new 1 2", &SCRIPTS_R, "xt", &mut cases);
+        enumerate(7, 61, &SCRIPTS_A, "xa", Dumps::Sparse, &mut cases);
+        enumerate(6, 1, &SCRIPTS_A, "xb", Dumps::Sparse, &mut cases);
+        enumerate(6, 2, &SCRIPTS_A, "xc", Dumps::Sparse, &mut cases);
+        enumerate(6, 61, &SCRIPTS_B, "xd", Dumps::Sparse, &mut cases);
+        enumerate(5, 1, &SCRIPTS_B, "xe", Dumps::Sparse, &mut cases);
+        enumerate(5, 2, &SCRIPTS_B, "xf", Dumps::Sparse, &mut cases);
+        enumerate(5, 3, &SCRIPTS_B, "xg", Dumps::Sparse, &mut cases);
+        enumerate(6, 61, &SCRIPTS_C, "xh", Dumps::Sparse, &mut cases);
+        enumerate(5, 1, &SCRIPTS_C, "xi", Dumps::Sparse, &mut cases);
+        enumerate(5, 2, &SCRIPTS_C, "xj", Dumps::Sparse, &mut cases);
+        enumerate_r(6, "new 61", &SCRIPTS_R, "xr", Dumps::Sparse, &mut cases);
+        enumerate_r(5, "new 61 1", &SCRIPTS_R, "xs", Dumps::Sparse, &mut cases);
+        enumerate_r(5, "new 1 2", &SCRIPTS_R, "xt", Dumps::Sparse, &mut cases);
     } else {
-        enumerate(4, 1, &SCRIPTS_A, "xa", &mut cases);
-        enumerate(3, 61, &SCRIPTS_A, "xb", &mut cases);
-        enumerate(3, 2, &SCRIPTS_C, "xh", &mut cases);
-        enumerate_r(3, "new 61", &SCRIPTS_R, "xr", &mut cases);
-        enumerate_r(3, "new 61 1", &SCRIPTS_R, "xs", &mut cases);
+        enumerate(4, 1, &SCRIPTS_A, "xa", Dumps::All, &mut cases);
+        enumerate(3, 61, &SCRIPTS_A, "xb", Dumps::All, &mut cases);
+        enumerate(3, 2, &SCRIPTS_C, "xh", Dumps::All, &mut cases);
+        enumerate_r(3, "new 61", &SCRIPTS_R, "xr", Dumps::All, &mut cases);
+        enumerate_r(3, "new 61 1", &SCRIPTS_R, "xs", Dumps::All, &mut cases);
     }
     // 2. generated programs
     let n = if thorough { 40_000 } else { 1_750 };
@@ -2365,6 +2497,6 @@ fn main() {
     run_harness(
         generate,
         run_case,
-        "cases: programs of local operations (spawn script, tick, hpoll, hdrop, hdetach, hcancel, wake, wdrop, xdrop, stat, woken; script letters p s c r x, and R = wake self then Ready, X = wake self then panic, C = keep a waker clone then Ready) and sequential cross-thread operations (rhpoll, rhdrop, rhcancel, rwake, rwakeb, rwdrop run on a helper thread that the main thread waits for; script letter W = a clone of the task waker is woken on a helper thread inside the poll; `new n q` sets sync_queue_size q; the executor always has a driver waker that, when armed by rwakeb, makes the main thread tick once). (a) exhaustive, local: every program of 1..L operations over {spawn s, tick, hpoll 0 0, hpoll 0 1, hpoll 1 0, hdrop 0, hdrop 1, hdetach 0, hcancel 0, wake 0, wdrop 0, xdrop} that starts with a spawn, spawns at most 2 tasks and has no operation that is invalid by syntax alone (unknown id, handle already consumed, dead executor, no waker clone possible); quick: scripts {r,sr,cx,p}, L=4 for max_interval 1, L=3 for 61; thorough: scripts {r,sr,cx,p}, L=7 for max_interval 61, L=6 for 1 and 2; scripts {x,ssr,ccr,cs}, L=6 for 61, L=5 for 1, 2, 3; scripts {R,sR,cC,X}, quick L=3 for max_interval 2, thorough L=6 for 61, L=5 for 1 and 2. (b) exhaustive, cross-thread, same pruning: alphabet {spawn s, tick, rwake 0, rwake 1, rwakeb 0, rwakeb 1, wake 0, rwdrop 0, rhpoll 0 0, hpoll 0 1, rhdrop 0, rhcancel 0, hdrop 1, xdrop}, scripts {cWr,cpr,p,Wr}; quick: L=3 for (max_interval 61, queue 64) and (61, 1); thorough: L=6 for (61, 64), L=5 for (61, 1) and (1, 2). (c) generated (quick 1750, thorough 40000; about a third of the r/x terminal letters are R/C/X): 16% unstructured random local programs; 6% hostile (ids out of range, consumed handles, wake/wdrop without clone, operations on a dropped executor, max_interval in {0,1,2,4,5,61,100}); 10% waker (scripts s*c..: wake/wdrop while pending, after completion, as last holder, after hdrop/hcancel, after xdrop); 10% join (handle parked with one/two/the same waker before the completing tick, then poll/drop/detach/cancel/xdrop); 10% phase (hdrop/hdetach/hcancel/xdrop before the first tick, while pending, after completion, after xdrop); 8% hot (max_interval 1..3, 2-6 mostly self-waking tasks, many ticks); 8% requeue (a task finishing with R/X while other tasks are hot behind it or as the only hot task, then self-wakes, wakes of parked tasks, spawns, W, more ticks; max_interval 2..4 and 61); 8% rdrop (handle dropped/cancelled on another thread before the first tick, while pending cold, while hot, after completion, after xdrop, then ticks); 10% rwake (scripts with c and W: rwake before the tick whose poll contains a W, several rwake in a row, rwake mixed with wake, rwake of completed/cancelled tasks, rwakeb, small max_interval); 6% rpoll (rhpoll mixed with hpoll, same/other waker, before and after the completing tick); 5% smallq (sync queue of 1 or 2 slots: rwake refused as full, rwakeb through a full queue, mixes); 3% rhostile (cross-thread operations with bad ids, consumed handles, dropped executor, queue sizes 0..3). The generator keeps a syntactic shadow (scripts, ticks, consumed handles) only to bias choices; it never judges outputs. Every case ends with stat of every task and the wake log; after the last line the harness keeps ticking until the executor runs dry and no remotely woken task is owed a poll (starvation / lost-wake / reaping monitors) and then drops everything (drop-count monitors). distinct by text; non-trivial = some spawn succeeded and at least 4 lines",
+        "cases: programs of local operations (spawn script, tick, hpoll, hdrop, hdetach, hcancel, wake, wdrop, xdrop, stat, woken; script letters p s c r x, and R = wake self then Ready, X = wake self then panic, C = keep a waker clone then Ready) and sequential cross-thread operations (rhpoll, rhdrop, rhcancel, rwake, rwakeb, rwdrop run on a helper thread that the main thread waits for; script letter W = a clone of the task waker is woken on a helper thread inside the poll; `new n q` sets sync_queue_size q; the executor always has a driver waker that, when armed by rwakeb, makes the main thread tick once). (a) exhaustive, local: every program of 1..L operations over {spawn s, tick, hpoll 0 0, hpoll 0 1, hpoll 1 0, hdrop 0, hdrop 1, hdetach 0, hcancel 0, wake 0, wdrop 0, xdrop} that starts with a spawn, spawns at most 2 tasks and has no operation that is invalid by syntax alone (unknown id, handle already consumed, dead executor, no waker clone possible); quick: scripts {r,sr,cx,p}, L=4 for max_interval 1, L=3 for 61; thorough: scripts {r,sr,cx,p}, L=7 for max_interval 61, L=6 for 1 and 2; scripts {x,ssr,ccr,cs}, L=6 for 61, L=5 for 1, 2, 3; scripts {R,sR,cC,X}, quick L=3 for max_interval 2, thorough L=6 for 61, L=5 for 1 and 2. (b) exhaustive, cross-thread, same pruning: alphabet {spawn s, tick, rwake 0, rwake 1, rwakeb 0, rwakeb 1, wake 0, rwdrop 0, rhpoll 0 0, hpoll 0 1, rhdrop 0, rhcancel 0, hdrop 1, xdrop}, scripts {cWr,cpr,p,Wr}; quick: L=3 for (max_interval 61, queue 64) and (61, 1); thorough: L=6 for (61, 64), L=5 for (61, 1) and (1, 2). (c) generated (quick 1750, thorough 40000; about a third of the r/x terminal letters are R/C/X): 16% unstructured random local programs; 6% hostile (ids out of range, consumed handles, wake/wdrop without clone, operations on a dropped executor, max_interval in {0,1,2,4,5,61,100}); 10% waker (scripts s*c..: wake/wdrop while pending, after completion, as last holder, after hdrop/hcancel, after xdrop); 10% join (handle parked with one/two/the same waker before the completing tick, then poll/drop/detach/cancel/xdrop); 10% phase (hdrop/hdetach/hcancel/xdrop before the first tick, while pending, after completion, after xdrop); 8% hot (max_interval 1..3, 2-6 mostly self-waking tasks, many ticks); 8% requeue (a task finishing with R/X while other tasks are hot behind it or as the only hot task, then self-wakes, wakes of parked tasks, spawns, W, more ticks; max_interval 2..4 and 61); 8% rdrop (handle dropped/cancelled on another thread before the first tick, while pending cold, while hot, after completion, after xdrop, then ticks); 10% rwake (scripts with c and W: rwake before the tick whose poll contains a W, several rwake in a row, rwake mixed with wake, rwake of completed/cancelled tasks, rwakeb, small max_interval); 6% rpoll (rhpoll mixed with hpoll, same/other waker, before and after the completing tick); 5% smallq (sync queue of 1 or 2 slots: rwake refused as full, rwakeb through a full queue, mixes); 3% rhostile (cross-thread operations with bad ids, consumed handles, dropped executor, queue sizes 0..3). The generator keeps a syntactic shadow (scripts, ticks, consumed handles) only to bias choices; it never judges outputs. A `qdump` line (hot and cold list of the real task queue as walked through the intrusive links via the compio_verif hook Executor::verif_queue_dump, plus the stored tails, keys mapped to task numbers) follows every operation line except new/stat/woken in the generated families, the quick exhaustive sets and before the trailing stat lines of every case; in the thorough exhaustive sets only tick / wake / rwake / rwakeb / hdrop / rhdrop / hcancel / rhcancel lines are followed by one. The queue well-formedness monitor runs after every operation line regardless. Every case ends with stat of every task and the wake log; after the last line the harness keeps ticking until the executor runs dry and no remotely woken task is owed a poll (starvation / lost-wake / reaping monitors) and then drops everything (drop-count monitors). distinct by text; non-trivial = some spawn succeeded and at least 4 lines",
     );
 }
